@@ -11,8 +11,17 @@ import (
 
 // NativeNewHandler builds the unexported add-checkpoint handler as FeedBastion does (test overlay only).
 func NativeNewHandler(w feeder.Witness, logs []config.Log, witV note.Verifier) http.Handler {
+	return NativeNewHandlerLimited(w, logs, witV, true)
+}
+
+// NativeNewHandlerLimited: allow=false builds a handler whose rate limiter refuses every request.
+func NativeNewHandlerLimited(w feeder.Witness, logs []config.Log, witV note.Verifier, allow bool) http.Handler {
 	initMetrics()
-	h := &addHandler{w: w, logs: make(map[string]config.Log), witVerifier: witV, limiter: rate.NewLimiter(1000, 1000)}
+	lim := rate.NewLimiter(1000, 1000)
+	if !allow {
+		lim = rate.NewLimiter(0, 0)
+	}
+	h := &addHandler{w: w, logs: make(map[string]config.Log), witVerifier: witV, limiter: lim}
 	for _, l := range logs {
 		h.logs[l.ID] = l
 	}
